@@ -58,11 +58,14 @@ func (s *Stream) Recv(msg any) error {
 		if need > cap(buf) {
 			buf = slices.Grow(buf, need-cap(buf))
 		}
+		// As documented by io.Reader, process the n > 0 bytes returned before
+		// considering the error: a reader may deliver the last bytes of a message
+		// together with io.EOF.
 		n, err := s.inner.Read(buf[read:need])
-		if err != nil {
-			return err
-		}
 		if n == 0 {
+			if err != nil {
+				return err
+			}
 			if read == 0 {
 				return io.ErrUnexpectedEOF
 			}
@@ -75,6 +78,9 @@ func (s *Stream) Recv(msg any) error {
 		}
 		if read >= need {
 			return UnmarshalTTLV(buf[:need], msg)
+		}
+		if err != nil {
+			return err
 		}
 	}
 }
